@@ -5,8 +5,15 @@ check(
     "symbolic execution (CrossHair+z3) of the real parser/formatter over all digit fillings of enumerated lexical shapes; AST->z3 translation of calendar and comparison kernels, unsat = holds",
     "DESIGN.md §5 C06",
 )
+check(
+    "C05",
+    "Bounded, solver-decided: CrossHair executes the real converters (bool/int/bytes/QName/enum/float serialisation, ConverterFactory.deserialize/sort_types/test) on strings whose characters or digits are z3 variables and on symbolic ints/bytes; DataType int inference is translated to z3 (pyz3) and proved for all integers. QName/enum/candidate-list drivers are selector-driven (finite pools enumerated by the solver's forking) and say so in the evidence; float/Decimal C functions run only on a concrete edge pool.",
+    "Trusted: z3, CrossHair, the chmodels integer<->string models, pure-Python models of binascii/base64 (validated against the C functions at import), the symbolic repr(float) grammar stub. Outside: float()/repr(float)/Decimal internals, strptime formats, strings accepted beyond the XSD lexical space.",
+    "symbolic execution (CrossHair+z3) of the real converter code over all strings/digit fillings within length bounds; AST->z3 proof for integer datatype inference",
+    "DESIGN.md §5 C05",
+)
 for _p, _r in {
-    "C01": "check not built yet", "C03": "check not built yet", "C04": "check not built yet", "C05": "check not built yet",
+    "C01": "check not built yet", "C03": "check not built yet", "C04": "check not built yet",
     "C07": "check not built yet", "C08": "check not built yet", "C09": "check not built yet", "C10": "check not built yet",
     "C11": "check not built yet", "C12": "check not built yet", "C14": "check not built yet", "C15": "check not built yet",
     "C18": "check not built yet", "C19": "check not built yet",
